@@ -128,7 +128,20 @@ func bindReplay(s *Summary, raw json.RawMessage) {
 func bindSource(s *Summary, c *bindCase) {
 	marker := map[string]string{"application/x-www-form-urlencoded": "F", "multipart/form-data": "M", "application/json": "J",
 		"application/xml": "X", "text/xml": "X"}[c.Media]
-	body, ctype := bodyFor(c.Media, bindT{Age: 2, Name: marker, Ok: true, Tags: []string{"b"}})
+	// the body carries name/age/tags but NOT ok; the query carries all four with other values: a bind that mixes
+	// sources shows up in Ok (taken from the query) or in Tags (values of both sources)
+	inBody := bindT{Age: 2, Name: marker, Ok: false, Tags: []string{"b"}}
+	body, ctype := bodyFor(c.Media, inBody)
+	if c.Media == "application/x-www-form-urlencoded" || c.Media == "multipart/form-data" {
+		uv := inBody.values()
+		uv.Del("ok")
+		if c.Media == "multipart/form-data" {
+			b, boundary := multipartBody(uv)
+			body, ctype = b, c.Media+"; boundary="+boundary
+		} else {
+			body = uv.Encode()
+		}
+	}
 	if c.Params && ctype != "" {
 		ctype += "; charset=utf-8"
 	}
@@ -157,6 +170,10 @@ func bindSource(s *Summary, c *bindCase) {
 			s.mismatch(desc(fmt.Sprintf("bound %+v without error; the statement demands an error for this type", v)), c)
 		case c.Source != "error" && (err != nil || v.Name != want):
 			s.mismatch(desc(fmt.Sprintf("bound name=%q err=%v; the source must be %s (name=%q)", v.Name, err, c.Source, want)), c)
+		case c.Source == "query" && !(v.Age == 1 && v.Ok && reflect.DeepEqual(v.Tags, []string{"q"})):
+			s.mismatch(desc(fmt.Sprintf("bound %+v; everything must come from the query string (age=1 ok=true tags=[q])", v)), c)
+		case c.Source != "error" && c.Source != "query" && !(v.Age == 2 && !v.Ok && reflect.DeepEqual(v.Tags, []string{"b"})):
+			s.mismatch(desc(fmt.Sprintf("bound %+v; everything must come from the %s body (age=2 ok=false tags=[b]), nothing from the query string", v, c.Source)), c)
 		}
 	}
 }
@@ -242,9 +259,12 @@ func bindMalformed(s *Summary) {
 	}
 	garbage := []string{"%zz=1", "tags[-1]=x", "tags[9999999999]=x", "name[0]=x", "age=abc", "ok=maybe", "=", "&&&", "tags[]=x", "tags[a]=x",
 		"age[0]=1", "tags[0][0]=x", "tags.0=x", "a=%", "\xff\xfe=\xff", "age=99999999999999999999", "tags[1]=only", "[", "]=", "tags[-0]=x", "tags[ 1]=x"}
+	// keys/values that cannot be decoded into the struct at all: these must be reported as an error
+	mustFail := map[string]bool{"%zz=1": true, "tags[-1]=x": true, "tags[9999999999]=x": true, "name[0]=x": true, "age=abc": true,
+		"age=99999999999999999999": true}
 	for _, g := range garbage {
-		try("POST", "application/x-www-form-urlencoded", g, false)
-		try("GET", "query", g, false)
+		try("POST", "application/x-www-form-urlencoded", g, mustFail[g])
+		try("GET", "query", g, mustFail[g] && g != "%zz=1") // URL.Query() drops undecodable pairs silently
 		try("POST", "application/json", g, false)
 		try("POST", "text/xml", g, false)
 		mb := "--BOUND\r\nContent-Disposition: form-data; name=\"" + g + "\"\r\n\r\nv\r\n--BOUND--\r\n"
